@@ -143,11 +143,135 @@ def b_second_pass(ctx):
     ctx.sample({'sequence': [100.0, -200.0, 300.0, -100.0, 200.0, -300.0], 'periodic_rainflow': periodic_rainflow([100, -200, 300, -100, 200, -300])})
 
 
+
+# ---------------------------------------------------------------------------------------------
+# P: the junction helpers (which sample is flushed at the end of which pass)
+# ---------------------------------------------------------------------------------------------
+GENF = 'pylife/stress/rainflow/general.py::'
+
+
+@obligation('C04', 'junction.last-sample-is-turn', functions=[FN + '._last_sample_is_turn_of_repeated_sequence'])
+def junction_turn(o):
+    """FKMNonlinearDetector._last_sample_is_turn_of_repeated_sequence(s) for every sequence s (any length >= 1, any values), with find_turns under its contract
+    (returns the turning-point positions of what it is given): find_turns receives exactly s ++ s (the sequence continued by its own repetition), and the result is
+    'the FIRST sample of the trailing run of equal values of s is one of the returned positions' - the trailing run is stepped back completely, whatever its length"""
+    from pv.interp import Obj, SArr
+    from pv.sym import SV
+    s_ = o.array('scalar_samples', 'real')
+    n = s_.n
+    o.assume(n >= 1)
+    q = z3.Int('q_')
+    calls = []
+    tix = o.array('turn_indices', 'int')
+
+    def find_turns_spec(I, args, kw):
+        calls.append(args[0])
+        return (tix, o.array('turn_values', 'real', n=tix.n))
+    o.spec(GENF + 'find_turns', find_turns_spec)
+    P = FN + '._last_sample_is_turn_of_repeated_sequence'
+    # loop invariant of the step-back loop: everything from `last` to the end equals the last sample
+    o.loop(P, 0, lambda v: z3.And(v.last >= 0, v.last <= n - 1, z3.ForAll([q], z3.Implies(z3.And(q >= v.last, q <= n - 1), z3.Select(s_.a, q) == z3.Select(s_.a, n - 1)))),
+           lambda v: v.last)
+    det = Obj(o.cls(FN))
+
+    def thunk():
+        calls.clear()
+        r = o.I.call(o.method(det, '_last_sample_is_turn_of_repeated_sequence'), [s_])
+        return r, list(calls)
+    ps = o.paths(thunk)
+    rets = [p for p in ps if p.kind == 'return']
+    o.shape('the function returns (on the path that leaves the step-back loop)', len(rets) >= 1 and all(p.kind in ('return', 'end') for p in ps), [(p.kind, getattr(p.exc, 'exc_type', None)) for p in ps])
+    cl = {}
+
+    def clause(label, pc, goal):
+        cl.setdefault(label, []).append(z3.Implies(z3.And(*pc) if pc else z3.BoolVal(True), goal if z3.is_expr(goal) else z3.BoolVal(bool(goal))))
+    for p in ps:
+        o.take_side_obligations(p, 'last_sample_is_turn')
+    for p in rets:
+        r, cs = p.result
+        clause('find_turns is called exactly once', p.pc, len(cs) == 1)
+        if len(cs) != 1:
+            continue
+        tw = cs[0]
+        clause('find_turns receives the sequence continued by its own repetition (s ++ s)', p.pc,
+               z3.And(tw.n == 2 * n, z3.ForAll([q], z3.Implies(z3.And(q >= 0, q < n), z3.And(z3.Select(tw.a, q) == z3.Select(s_.a, q), z3.Select(tw.a, n + q) == z3.Select(s_.a, q))))))
+        first = z3.Int('first_of_trailing_run')
+        is_first = z3.And(first >= 0, first <= n - 1, z3.ForAll([q], z3.Implies(z3.And(q >= first, q <= n - 1), z3.Select(s_.a, q) == z3.Select(s_.a, n - 1))),
+                          z3.Or(first == 0, z3.Select(s_.a, first - 1) != z3.Select(s_.a, n - 1)))
+        member = z3.Exists([q], z3.And(q >= 0, q < tix.n, z3.Select(tix.a, q) == first))
+        rt = r.t if hasattr(r, 't') else z3.BoolVal(bool(r))
+        clause('result == (first sample of the trailing run of equal values is among the turning points returned)', p.pc, z3.ForAll([first], z3.Implies(is_first, rt == member)))
+    for label, fs in cl.items():
+        o.prove(label, z3.And(*fs), kind='glue')
+    o.trusted("contract of find_turns (positions of the turning points of its argument, a plateau indexed at its first sample): bounded stand-in of C02 / C03")
+
+
+@obligation('C04', 'junction.first-run-flush', functions=[FN + '._adjust_samples_and_flush_for_hcm_first_run', FN + '._scalar_samples', FN + '.process_hcm_second'])
+def junction_flush(o):
+    """single-point load sequences: the first pass processes [0] ++ samples and flushes its last sample iff that sample is a turning point both of the zero-prefixed
+    sequence and of the sequence itself, each continued by its own repetition (the two questions are asked with exactly these two sequences); the second pass asks the
+    question for the sequence itself"""
+    from pv.interp import Obj, Opaque
+    from pv.sym import SV
+    s_ = o.array('samples', 'real')
+    n = s_.n
+    o.assume(n >= 2)
+    q = z3.Int('q_')
+    asked = []
+
+    def turn_spec(I, args, kw):
+        b_ = I.fresh('is_turn', 'bool')
+        asked.append((args[1], b_))
+        return SV(b_)
+    o.spec(FN + '._last_sample_is_turn_of_repeated_sequence', turn_spec)
+    det = Obj(o.cls(FN))
+
+    def thunk():
+        asked.clear()
+        r = o.I.call(o.method(det, '_adjust_samples_and_flush_for_hcm_first_run'), [s_])
+        return r, list(asked)
+    ps = o.paths(thunk)
+    rets = [p for p in ps if p.kind == 'return']
+    o.shape('the helper returns on every path', len(rets) == len(ps) and len(rets) >= 1, [(p.kind, getattr(p.exc, 'exc_type', None)) for p in ps])
+    cl = {}
+
+    def clause(label, pc, goal):
+        cl.setdefault(label, []).append(z3.Implies(z3.And(*pc) if pc else z3.BoolVal(True), goal if z3.is_expr(goal) else z3.BoolVal(bool(goal))))
+    for p in rets:
+        o.take_side_obligations(p, 'first_run_flush')
+        (out, flush), qs = p.result
+        clause('the samples handed to the first pass are [0] ++ samples', p.pc,
+               z3.And(out.n == n + 1, z3.Select(out.a, 0) == 0, z3.ForAll([q], z3.Implies(z3.And(q >= 0, q < n), z3.Select(out.a, q + 1) == z3.Select(s_.a, q)))))
+
+        def is_prefixed(a):
+            return z3.And(a.n == n + 1, z3.Select(a.a, 0) == 0, z3.ForAll([q], z3.Implies(z3.And(q >= 0, q < n), z3.Select(a.a, q + 1) == z3.Select(s_.a, q))))
+
+        def is_plain(a):
+            return z3.And(a.n == n, z3.ForAll([q], z3.Implies(z3.And(q >= 0, q < n), z3.Select(a.a, q) == z3.Select(s_.a, q))))
+        ft = flush.t if hasattr(flush, 't') else z3.BoolVal(bool(flush))
+        # `and` short-circuits: one or two questions are asked; the first is about the zero-prefixed sequence, the second about the sequence itself
+        clause('the first question is asked about [0] ++ samples', p.pc, z3.And(z3.BoolVal(len(qs) >= 1), is_prefixed(qs[0][0]) if qs else z3.BoolVal(False)))
+        if len(qs) == 2:
+            clause('the second question is asked about the samples themselves', p.pc, is_plain(qs[1][0]))
+            clause('flush == both answers', p.pc, ft == z3.And(qs[0][1], qs[1][1]))
+        elif len(qs) == 1:
+            clause('flush is False without a second question only if the first answer is no', p.pc, z3.And(z3.Not(qs[0][1]), z3.Not(ft)))
+        else:
+            clause('one or two questions are asked', p.pc, False)
+    for label, fs in cl.items():
+        o.prove(label, z3.And(*fs), kind='glue')
+    o.note("multi-point (MultiIndex Series) input takes the pandas branch of the helper: bounded stand-in only")
+
+
 META = {
-    'level': 'exploration',
-    'explanation': "bounded stand-in (labelled): the second-pass contract is a whole-history statement over pandas-heavy code; it is evaluated on the real detector for every "
-                   "sequence up to the stated length and every single insertion of a non-reversal sample, against an independent periodic rainflow oracle.",
-    'not_decided': ["sequences longer than the bound"],
-    'trusted_base': ['independent oracle specs/hcm_spec.periodic_rainflow'],
+    'level': 'other',
+    'explanation': "mixed. Proved: the two junction helpers that decide which sample is flushed at the end of which pass - _last_sample_is_turn_of_repeated_sequence "
+                   "(find_turns receives the sequence continued by its own repetition; the trailing run of equal values is stepped back completely, loop invariant; the "
+                   "answer is membership of that position in the returned turning points) and, for single-point input, _adjust_samples_and_flush_for_hcm_first_run (the first "
+                   "pass gets [0] ++ samples; the flush decision is the conjunction of the question asked about [0] ++ samples and about the samples themselves). "
+                   "Bounded stand-in (labelled) for the statement itself: the second-pass contract is a whole-history statement over pandas-heavy code; it is evaluated on the "
+                   "real detector for every sequence up to the stated length and every single insertion of a non-reversal sample, against an independent periodic rainflow oracle.",
+    'not_decided': ["sequences longer than the bound", "multi-point (MultiIndex) branch of the first-run helper", "that the junction rule as implemented yields the periodic count (finding C04-deferred-last-reversal shows it does not always)"],
+    'trusted_base': ['independent oracle specs/hcm_spec.periodic_rainflow', 'assumed contract of find_turns'],
     'rule': "sequences over a 7 value alphabet enumerated completely up to the bound; non-trivial = >= 2 closed cycles or a special junction",
 }
